@@ -105,7 +105,9 @@ func VC05_corrupt() {
 		}
 		switch nl {
 		case 3:
-			c5wr32(d, off+8, []uint32{0x00ffffff, 16384, 0x10000, 0xffffffff}[vrt.Choose(4)])
+			// far too long, or just around the end of the mapped data: the name would
+			// end exactly at it, one byte past it, or its start still lies inside
+			c5wr32(d, off+8, []uint32{0x00ffffff, 16384, 0x10000, 0xffffffff, 16384 - off - 16, 16384 - off - 15, 16384 - off - 8}[vrt.Choose(7)])
 		default:
 			c5wr32(d, off+8, uint32(nl)|0xff000000)
 		}
